@@ -1,0 +1,9 @@
+//go:build verif
+
+package spdx
+
+// More wrappers for the C11 verification harness (/verif/harness/cmd/c11). Wrappers only.
+
+func VerifMergeLicensingInfos(sourceDoc, targetDoc *Document) error {
+	return mergeLicensingInfos(sourceDoc, targetDoc)
+}
